@@ -181,56 +181,129 @@ def parseBurst : List String → Option (List (Nat × Int))
     | _, _, _ => none
   | _ => none
 
-def mkQueueHandler (persistent : Bool) : Handler QD where
-  init := { persistent := persistent }
-  onCase := fun d toks =>
+/-! ### several producers woken together (`Broadcast`): the order in which they re-take the lock is the scheduler's
+
+Everything else in a run to quiescence is deterministic; for the re-lock order the driver computes ALL quiescent outcomes
+(breadth first, duplicates merged), waits for the implementation's observation of that label, continues from the outcome
+that equals it (or from the first one, which then shows up as a difference) and prints its line then.  Lines therefore
+come out one label late; their order is unchanged. -/
+
+def phCode : Ph → String
+  | .idle => "i" | .sel => "s" | .wokenTok => "t" | .wokenCtx => "c" | .waitRes => "w" | .done _ => "d"
+
+def QD.key (d : QD) : String :=
+  d.obs ++ "|" ++ toString d.s.waiters ++ "|" ++ toString d.s.cwait ++ toString d.s.cwoken ++ "|" ++
+  String.join (d.prods.map (fun p => phCode (d.s.ps p).ph ++ (if (d.s.ps p).sig then "1" else "0")))
+
+/-- deterministic part: every enabled internal label except a producer's re-lock after its channel was closed -/
+def QD.nextDet (d : QD) : Option Label :=
+  let cands : List Label :=
+    d.prods.flatMap (fun p => [.wakeTok p, .wakeCtx p, .relockCtx p, .getRes p, .resCtx p]) ++
+    (match d.s.cwoken with | c :: _ => [Label.recheck c] | [] => [])
+  cands.find? (fun l => (d.fireF l).isSome)
+
+def QD.detClosure : Nat → QD → QD
+  | 0, d => d
+  | fuel + 1, d =>
+    match d.nextDet with
+    | none => d
+    | some l => match d.applyLabel l with
+      | some d' => QD.detClosure fuel d'
+      | none => d
+
+def addDedup (acc : List QD) (d : QD) : List QD := if acc.any (fun x => x.key == d.key) then acc else acc ++ [d]
+
+/-- breadth-first over the re-lock choices -/
+def QD.closureAll : Nat → List QD → List QD → List QD
+  | 0, frontier, done => frontier.foldl addDedup done
+  | fuel + 1, frontier, done =>
+    match frontier with
+    | [] => done
+    | _ =>
+      let step := frontier.foldl (fun (acc : List QD × List QD) d =>
+        let d := QD.detClosure 10000 d
+        let woken := d.prods.filter (fun p => (d.fireF (.relockTok p)).isSome)
+        match woken with
+        | [] => (acc.1, addDedup acc.2 d)
+        | _ => (woken.foldl (fun fr p => match d.applyLabel (.relockTok p) with
+                  | some d' => addDedup fr d'
+                  | none => fr) acc.1, acc.2)) (([] : List QD), done)
+      QD.closureAll fuel step.1 step.2
+
+structure QH where
+  cur : QD := {}
+  cands : List QD := []          -- outcomes of the last label, not resolved yet
+  deferred : List String := []   -- lines to print at the next opportunity
+
+def QH.resolveWith (h : QH) (line : Option String) : QH :=
+  match h.cands with
+  | [] => h
+  | c :: cs =>
+    let chosen := match line with
+      | some l => ((c :: cs).find? (fun x => x.obs == l)).getD c
+      | none => c
+    { h with cur := chosen, cands := [], deferred := h.deferred ++ [chosen.obs] }
+
+def QH.start (h : QH) (ds : Option (List QD)) : QH :=
+  match ds with
+  | some (d :: _) => { h with cands := QD.closureAll 64 (match ds with | some l => l | none => [d]) [] }
+  | _ => { h with cur := { h.cur with bad := true }, deferred := h.deferred ++ ["obs bad-step"] }
+
+def mkQueueHandler (persistent : Bool) : Handler QH where
+  init := { cur := { persistent := persistent } }
+  onCase := fun h toks =>
     let k : Cfg := { cap := (kvInt toks "cap").getD 1, block := parseBool (kv toks "block"), wfr := parseBool (kv toks "wfr") }
-    { d with k := k, mon := { cap := k.cap, block := k.block, wfr := k.wfr, persistent := persistent } }
-  onOp := fun d toks =>
-    let (d', outs) : QD × List String :=
+    { h with cur := { h.cur with k := k, mon := { cap := k.cap, block := k.block, wfr := k.wfr, persistent := persistent } } }
+  onOp := fun h toks =>
+    let h := h.resolveWith none
+    let outs := h.deferred
+    let d : QD := { h.cur with mon := h.cur.mon.onOp toks }
+    let h : QH := { h with cur := d, deferred := [] }
+    let one (d : QD) (l : Label) : Option (List QD) := (d.applyLabel l).map (fun x => [x])
+    let h' : QH :=
       match toks with
       | ["offer", p, el] =>
         match p.toNat?, el.toInt? with
-        | some p, some el => ({ d with prods := insertSorted p d.prods } : QD).ext (.offer p el)
-        | _, _ => (d, ["obs bad-op"])
+        | some p, some el => h.start (one { d with prods := insertSorted p d.prods } (.offer p el))
+        | _, _ => { h with deferred := ["obs bad-op"] }
       | ["cancel", p] =>
         match p.toNat? with
-        | some p => d.ext (.cancel p)
-        | none => (d, ["obs bad-op"])
+        | some p => h.start (one d (.cancel p))
+        | none => { h with deferred := ["obs bad-op"] }
       | "burst" :: rest =>
         -- one goroutine issues several Offers back to back: no goroutine step in between, then run to quiescence
         match parseBurst rest with
         | some offers =>
-          let r := offers.foldl (fun (acc : Option QD) (o : Nat × Int) =>
-            acc.bind (fun d => ({ d with prods := insertSorted o.1 d.prods } : QD).applyLabel (.offer o.1 o.2))) (some d)
-          match r with
-          | some d' => let d2 := QD.closure 10000 d'; (d2, [d2.obs])
-          | none => ({ d with bad := true }, ["obs bad-step"])
-        | none => (d, ["obs bad-op"])
+          h.start ((offers.foldl (fun (acc : Option QD) (o : Nat × Int) =>
+            acc.bind (fun d => ({ d with prods := insertSorted o.1 d.prods } : QD).applyLabel (.offer o.1 o.2))) (some d)).map (fun x => [x]))
+        | none => { h with deferred := ["obs bad-op"] }
       | "restore" :: rest =>
         -- persistent queue started on non-empty storage: stored requests (accepted in an earlier life) and the restored size
-        if !d.persistent then (d, ["obs bad-op"]) else
+        if !d.persistent then { h with deferred := ["obs bad-op"] } else
         match parseBurst (rest.filter (fun t => !(t.startsWith "size="))), (Check.kvOf rest "size").bind String.toInt? with
         | some items, some sz =>
           let ids := items.map (·.1)
           let s0 : St := { items := items, size := sz, accepted := ids,
                            ps := fun p => if p ∈ ids then { ph := .done .ok } else {} }
-          let d' := { d with s := s0 }
-          (d', [d'.obs])
-        | _, _ => (d, ["obs bad-op"])
+          { h with cands := [{ d with s := s0 }] }
+        | _, _ => { h with deferred := ["obs bad-op"] }
       | ["read", c] =>
         match c.toNat? with
-        | some c => d.ext (.read c)
-        | none => (d, ["obs bad-op"])
+        | some c => h.start (one d (.read c))
+        | none => { h with deferred := ["obs bad-op"] }
       | ["done", id, e] =>
         match id.toNat?, e.toNat? with
-        | some id, some e => d.ext (.complete id e)
-        | _, _ => (d, ["obs bad-op"])
-      | ["shutdown"] => d.ext .shutdown
-      | _ => (d, ["obs bad-op"])
-    ({ d' with mon := d'.mon.onOp toks }, outs)
-  onObs := fun d toks => { d with mon := d.mon.onObs toks }
-  onEnd := fun d => d.mon.verdict
+        | some id, some e => h.start (one d (.complete id e))
+        | _, _ => { h with deferred := ["obs bad-op"] }
+      | ["shutdown"] => h.start (one d .shutdown)
+      | _ => { h with deferred := ["obs bad-op"] }
+    (h', outs)
+  onObs := fun h toks =>
+    let h := h.resolveWith (some (" ".intercalate toks))
+    { h with cur := { h.cur with mon := h.cur.mon.onObs toks } }
+  onEnd := fun h =>
+    let h := h.resolveWith none
+    h.deferred ++ h.cur.mon.verdict
 
 /-! ## configuration glue: the queue an exporter actually gets, judged against the configuration as written
 
